@@ -906,3 +906,91 @@ for _lab, _reps in ACC_REPLICAS.items():
         slice_note="from `e_gamma[e_name] = np.zeros(w_max)` to `e_gamma[e_name] /= gamma_div[:w_max]`; live-in variables self, e_name, "
                    "e_content, e_gamma, w_max, fft, gapsize; replicas of the ensemble: %s" % ", ".join(_reps),
     )
+
+
+# ---------------------------------------------------------------------------------------------------
+# gamma_method: totals - errors of the ensembles and of the covariance-defined inputs are added in quadrature
+
+ERRSQ = z3.Function("covobs_errsq", z3.IntSort(), z3.RealSort())
+
+
+def _tot_obj(ncov):
+    def make(name, ctx, shape=None):
+        covs = ["c%d" % i for i in range(ncov)]
+        o = SObj("Obs", {"_dvalue": SReal(z3.Real(fresh("sum_sq"))), "ddvalue": SReal(z3.Real(fresh("sum_dd"))),
+                         "e_dvalue": CDict({"A": SReal(z3.Real(fresh("e_dvalue.A")))}), "e_ddvalue": CDict({"A": SReal(z3.Real(fresh("e_ddvalue.A")))}),
+                         "cov_names": CList(covs, "list"),
+                         "_covobs": CDict({c: SObj("Covobs", {"_index": i}) for i, c in enumerate(covs)})})
+        return o
+    return make
+
+
+_ERRSQ_STUB = contract(
+    "pyerrors/covobs.py::Covobs.errsq", props=[], assumed=True, register=False, name="pyerrors/covobs.py::Covobs.errsq[uninterpreted]",
+    params=dict(self=Custom(lambda n, c, s: None)),
+    result=lambda a, ctx: wrap(ERRSQ(a.self.attrs["_index"])),
+    note="squared error of a covariance-defined input (grad^T cov grad): an uninterpreted non-negative number per input",
+)
+
+
+def _tail_slice(mod, fnode):
+    for i, st in enumerate(fnode.body):
+        if isinstance(st, ast.For) and isinstance(st.iter, ast.Attribute) and st.iter.attr == "cov_names":
+            return [s for s in fnode.body[i:] if not isinstance(s, ast.Return)]
+    from pyvc.sym import CheckerError
+    raise CheckerError("contract no longer binds: the loop over cov_names at the end of gamma_method was not found")
+
+
+def _tot_post(a, r):
+    o, o0 = r.self, a.self
+    covs = list(o0.attrs["cov_names"].items)
+    s1 = o0.attrs["_dvalue"]
+    for i, c in enumerate(covs):
+        s1 = s1 + wrap(ERRSQ(i))
+    dv = A(o, "_dvalue")
+    out = {"total error: quadrature sum of ensembles and covariance inputs": eq(dv, _sqrt(s1)),
+           "error of the error": eq(A(o, "ddvalue"), Ite(dv == 0, Fraction(0), _sqrt(o0.attrs["ddvalue"]) / dv))}
+    for i, c in enumerate(covs):
+        out["covariance input %s" % c] = And(eq(D(A(o, "e_dvalue"), c), _sqrt(wrap(ERRSQ(i)))), eq(D(A(o, "e_ddvalue"), c), 0))
+    return out
+
+
+for _n in (0, 1, 2):
+    contract(
+        REL + "::Obs.gamma_method", name=REL + "::Obs.gamma_method[totals, %d covariance inputs]" % _n, props=["C02"],
+        slice=_tail_slice, overrides={"pyerrors/covobs.py::Covobs.errsq": _ERRSQ_STUB},
+        params=dict(self=Custom(_tot_obj(_n))),
+        requires=(lambda n: lambda a: {"squared errors of covariance inputs are non-negative": And(*[wrap(ERRSQ(i) >= 0) for i in range(n)]) if n else True,
+                                       "accumulated sums of squares are non-negative": And(a.self.attrs["_dvalue"] >= 0, a.self.attrs["ddvalue"] >= 0)})(_n),
+        abstract_nl=False,
+        inline=[REL + "::Obs.covobs"],
+        writable_attrs={"self": GM_WRITABLE},
+        ensures=_tot_post,
+        native_ok=False, crosscheck=False, refute=False,
+        slice_note="from `for e_name in self.cov_names:` to the end of gamma_method; live-in: self with _dvalue / ddvalue holding the sums of "
+                   "squares accumulated over the Monte-Carlo ensembles",
+    )
+
+
+def _ens_acc_slice(mod, fnode):
+    loops = [n for n in ast.walk(fnode) if isinstance(n, ast.For)]
+    for lp in loops:
+        tail = lp.body[-2:]
+        if len(tail) == 2 and all(isinstance(s, ast.AugAssign) for s in tail) and "_dvalue" in ast.dump(tail[0].target) and "ddvalue" in ast.dump(tail[1].target):
+            return tail
+    from pyvc.sym import CheckerError
+    raise CheckerError("contract no longer binds: per-ensemble accumulation of _dvalue / ddvalue not found")
+
+
+contract(
+    REL + "::Obs.gamma_method", name=REL + "::Obs.gamma_method[per-ensemble accumulation]", props=["C02"],
+    slice=_ens_acc_slice,
+    params=dict(self=Custom(_tot_obj(0)), e_name=Const("A")),
+    writable_attrs={"self": GM_WRITABLE},
+    ensures=lambda a, r: {
+        "sum of squared ensemble errors": eq(A(r.self, "_dvalue"), a.self.attrs["_dvalue"] + D(a.self.attrs["e_dvalue"], "A") * D(a.self.attrs["e_dvalue"], "A")),
+        "sum of squared (error x relative error of the error)": eq(A(r.self, "ddvalue"), a.self.attrs["ddvalue"] + (D(a.self.attrs["e_dvalue"], "A") * D(a.self.attrs["e_ddvalue"], "A")) * (D(a.self.attrs["e_dvalue"], "A") * D(a.self.attrs["e_ddvalue"], "A")))},
+    abstract_nl=False,
+    native_ok=False, crosscheck=False, refute=False,
+    slice_note="last two statements of the per-ensemble loop of gamma_method",
+)
